@@ -156,8 +156,10 @@ class _ExecutorFlags:
     def flag_as_shutting_down(self, kill_workers=None):
         with self.shutdown_lock:
             self.shutdown = True
-            if kill_workers is not None:
-                self.kill_workers = kill_workers
+            if kill_workers:
+                # Only ever upgrade: a later shutdown() with the default
+                # kill_workers=False must not cancel a pending forced shutdown.
+                self.kill_workers = True
 
     def flag_as_broken(self, broken):
         with self.shutdown_lock:
